@@ -645,8 +645,17 @@ func (m *machine) actGetCurrent(t *rapid.T) {
 		return
 	}
 	m.cursorMustBe(t, "GetCurrentKey/GetCurrentValue", sel)
+	if m.tr.trk != nil {
+		m.tr.trk.reset()
+	}
 	it, err := m.tr.b.GetCurrentItem(ctx)
 	m.noErr(t, "GetCurrentItem", err)
+	if k := m.tr.trk; k != nil {
+		if len(k.ev) != 1 || k.ev[0].kind != 'G' || k.ev[0].id != sel.ID {
+			t.Fatalf("GetCurrentItem on key=%d value=%d sent ItemActionTracker notifications %s, want one Get of that item", sel.N, sel.Val, renderEvents(k.ev))
+		}
+		k.reset()
+	}
 	if it.ID != sel.ID || it.Key.N != sel.N || it.Key.Tag != sel.Tag || it.Value == nil || *it.Value != sel.Val {
 		t.Fatalf("GetCurrentItem = %+v, expected key=%d tag=%d value=%d", it, sel.N, sel.Tag, sel.Val)
 	}
